@@ -280,7 +280,9 @@ def ofetchRef (st : List ((String × Int) × CState)) (req : String) (ver : Int 
       | some (_, .val o m) => s!"{p}/{o}/{m}/0"
       | none => s!"{p}/-1//0")
   -- OffsetFetch has a top-level error code from v2 on; before, a group-level failure is reported on every partition only
-  pure s!"{if ver ≥ 2 then groupErr.getD 0 else 0};{"|".intercalate body}"
+  -- … and from v2 on the broker then lists no partitions at all
+  if ver ≥ 2 && groupErr.isSome then pure s!"{groupErr.getD 0};"
+  else pure s!"{if ver ≥ 2 then groupErr.getD 0 else 0};{"|".intercalate body}"
 
 def knownTopics : List String := ["a", "b", "c", "d", "e", "ab"]
 
